@@ -5,6 +5,7 @@
 // epsilon = 2^-52, total order.
 #ifndef VQ_RATIONAL_HPP
 #define VQ_RATIONAL_HPP
+#define VQ_Q_HAS_INT_CONV 1
 
 #include <limits>
 #include <cmath>
@@ -56,6 +57,13 @@ struct Q {
 
     explicit operator double() const { return v.convert_to<double>(); }
     explicit operator float() const { return (float)v.convert_to<double>(); }
+    // truncation toward zero, as static_cast<int>(double) does
+    long long trunc_z() const { Z n = boost::multiprecision::numerator(v), d = boost::multiprecision::denominator(v); Z q = n / d; return q.convert_to<long long>(); }
+    explicit operator int() const { return (int)trunc_z(); }
+    explicit operator long() const { return (long)trunc_z(); }
+    explicit operator long long() const { return trunc_z(); }
+    explicit operator unsigned() const { return (unsigned)trunc_z(); }
+    explicit operator unsigned long() const { return (unsigned long)trunc_z(); }
     explicit operator bool() const { return v != 0; }
 
     std::string str() const {
